@@ -194,7 +194,21 @@ Section AssocFacts.
   Proof. unfold cnt. rewrite (count_occ_In dec). lia. Qed.
 
   Lemma memb_true k l : memb dec k l = true <-> In k l.
-  Proof. unfold memb. destruct (in_dec dec k l); split; auto; discriminate. Qed.
+  Proof.
+    induction l as [|x l IH]; cbn [memb In]; [split; [discriminate|tauto]|].
+    destruct (dec k x) as [->|N]; [tauto|]. rewrite IH. split; [tauto|]. intros [E|E]; [congruence|assumption].
+  Qed.
+
+  Lemma memb_false k l : memb dec k l = false <-> ~ In k l.
+  Proof. rewrite <- memb_true. destruct (memb dec k l); split; congruence. Qed.
+
+  Lemma dedup_nodup l : dedup dec l = nodup dec l.
+  Proof.
+    induction l as [|x l IH]; cbn [dedup nodup]; [reflexivity|].
+    destruct (in_dec dec x l) as [i|n].
+    - apply memb_true in i. rewrite i. assumption.
+    - apply memb_false in n. rewrite n. congruence.
+  Qed.
 End AssocFacts.
 Arguments wf {A} s.
 
@@ -278,13 +292,13 @@ Section CardFacts.
     Forall2 (fun ins col => forall h, In h ins <-> In h (map hash (filter nonempty col))) inss cols ->
     sk_len (sk_run cap inss) = card_spec hash cap (concat cols).
   Proof.
-    intros Hc F. rewrite sk_run_concat, sk_len_fold by assumption. unfold card_spec. cbv zeta.
+    intros Hc F. rewrite sk_run_concat, sk_len_fold by assumption. unfold card_spec. cbv zeta. rewrite dedup_nodup.
     rewrite (same_set_nodup_length N.eq_dec _ _ (sets_concat _ _ F)). reflexivity.
   Qed.
 
   Lemma batch_ins_set col h : In h (batch_ins hash col) <-> In h (map hash (filter nonempty col)).
   Proof.
-    unfold batch_ins. rewrite !in_map_iff. split; intros [v [E I]]; exists v; split; auto;
+    unfold batch_ins. rewrite dedup_nodup, !in_map_iff. split; intros [v [E I]]; exists v; split; auto;
       rewrite filter_In in *; rewrite nodup_In in *; assumption.
   Qed.
 
@@ -316,7 +330,7 @@ Section CardFacts.
     card hash cap j bs = Some (distinct_nonempty col).
   Proof.
     intros Hc col Inj Hd. rewrite card_is_spec by assumption. fold col. unfold card_spec, distinct_nonempty in *.
-    cbv zeta. rewrite nodup_map_inj_length.
+    cbv zeta. rewrite !dedup_nodup in *. rewrite nodup_map_inj_length.
     - destruct (Z.leb_spec (Z.of_nat (length (nodup str_eq_dec (filter nonempty col)))) cap); [reflexivity|lia].
     - intros u v Iu Iv. apply filter_In in Iu. apply filter_In in Iv. destruct Iu as [Iu Nu], Iv as [Iv Nv].
       apply Inj; auto; intro; subst; discriminate.
@@ -379,9 +393,10 @@ Qed.
 
 Lemma hist_exact edges col : hist_of edges (exact_run col) = hist_spec edges col.
 Proof.
-  unfold hist_of, hist_spec. apply map_ext. intro x. f_equal.
+  unfold hist_of, hist_spec. cbv zeta. apply map_ext. intro x. f_equal. rewrite (dedup_nodup _ str_eq_dec col).
   rewrite (al_as_map (cnt str_eq_dec col) (exact_run col)).
-  - rewrite filter_map_comm, map_length. cbn [snd]. apply length_filter_perm, keys_exact_run_perm.
+  - rewrite (filter_map_comm (fun v => cnt str_eq_dec col v) (fun c => x <? c)).
+    rewrite (filter_map_comm (fun k => (k, cnt str_eq_dec col k))). rewrite map_length. rewrite map_length. cbn [snd]. apply length_filter_perm, keys_exact_run_perm.
   - intros [k c] I. cbn [fst snd]. apply (wf_In _ str_eq_dec) in I; [|apply wf_exact_run].
     rewrite get_exact_run in I. lia.
 Qed.
@@ -578,7 +593,7 @@ Section RareFacts.
     - intro I. specialize (H2 _ I). cbn [fst snd] in H2. lia.
     - intros (E & P & L). subst c.
       assert (I : In k (keys_of ncols rows)) by (apply (cnt_pos_In _ key_eq_dec); rewrite cnt_keys_of; assumption).
-      specialize (H3 _ I). cbv zeta in H3. apply (get_In key_eq_dec); lia.
+      rewrite <- (nodup_In key_eq_dec), <- dedup_nodup in I. specialize (H3 _ I). cbv zeta in H3. apply (get_In key_eq_dec); lia.
   Qed.
 
   Lemma rare_checkb_model (bs : list batch) : rare_checkb thr ncols (concat bs) (rare thr ncols bs) = true.
@@ -635,11 +650,11 @@ Definition missing_cells (syms col : list str) : Z :=
 
 Lemma miss_count_spec syms col : miss_count syms col = missing_cells syms col.
 Proof.
-  unfold miss_count, missing_cells. rewrite sum_counts by apply NoDup_nodup. f_equal. f_equal.
-  apply filter_ext. intro v. unfold memb.
-  destruct (in_dec str_eq_dec v (nodup str_eq_dec syms)) as [i|n], (in_dec str_eq_dec v syms) as [i'|n']; auto.
-  - apply nodup_In in i. contradiction.
-  - exfalso. apply n. apply nodup_In. assumption.
+  unfold miss_count, missing_cells. rewrite dedup_nodup. rewrite sum_counts by apply NoDup_nodup. f_equal. f_equal.
+  apply filter_ext. intro v.
+  destruct (memb str_eq_dec v (nodup str_eq_dec syms)) eqn:M1, (memb str_eq_dec v syms) eqn:M2; auto.
+  - apply memb_true in M1. apply memb_false in M2. apply nodup_In in M1. contradiction.
+  - apply memb_false in M1. apply memb_true in M2. exfalso. apply M1. apply nodup_In. assumption.
 Qed.
 
 Lemma filter_len_le {A} (p : A -> bool) l : (length (filter p l) <= length l)%nat.
